@@ -2118,15 +2118,6 @@ package spec
 //@   ensures  [C14] strings-sent @@ result1 == nil ==> gobPadAlias[gobStream(result0)].Swagger == o.Swagger && gobPadAlias[gobStream(result0)].Host == o.Host && gobPadAlias[gobStream(result0)].BasePath == o.BasePath && gobPadAlias[gobStream(result0)].ID == o.ID
 //@   loop 0 invariant 0 <= $i0 && $i0 <= len(o.Security) && len(raw.Security) == $i0 && raw.Alias != nil && !raw.SecurityIsEmpty
 //@   loop 0 invariant len(raw.Alias.Security) == len(o.Security) && raw.Alias.Swagger == o.Swagger && raw.Alias.Host == o.Host && raw.Alias.BasePath == o.BasePath && raw.Alias.ID == o.ID
-//@   ensures  [C14] padded-contents-sent @@ result1 == nil && len(o.Security) > 0 ==> (forall i int, k string :: triggers(has(o.Security[i], k)) && (0 <= i && i < len(o.Security) ==>
-//@               gobSecDom[gobStream(result0)][i][k] == has(o.Security[i], k) && (has(o.Security[i], k) ==> gobSecLLen[gobStream(result0)][i][k] == len(o.Security[i][k]))))
-//@   loop 0 invariant [C14] raw.Security != nil && fresh(sliceArr(raw.Security)) && (forall i2 int :: triggers(addr(raw.Security[i2])) && (0 <= i2 && i2 < $i0 ==> freshObj(raw.Security[i2])))
-//@   loop 0 invariant [C14] forall i2 int, k string :: triggers(has(raw.Security[i2], k)) && (0 <= i2 && i2 < $i0 ==> has(raw.Security[i2], k) == has(o.Security[i2], k) && (has(o.Security[i2], k) ==> len(raw.Security[i2][k].List) == len(o.Security[i2][k])))
-//@   loop 1 invariant [C14] 0 <= $i0 && $i0 < len(o.Security) && len(raw.Security) == $i0 && raw.Alias != nil && !raw.SecurityIsEmpty && req == o.Security[$i0]
-//@   loop 1 invariant [C14] len(raw.Alias.Security) == len(o.Security) && raw.Alias.Swagger == o.Swagger && raw.Alias.Host == o.Host && raw.Alias.BasePath == o.BasePath && raw.Alias.ID == o.ID
-//@   loop 1 invariant [C14] raw.Security != nil && fresh(sliceArr(raw.Security)) && (forall i2 int :: triggers(addr(raw.Security[i2])) && (0 <= i2 && i2 < $i0 ==> freshObj(raw.Security[i2]) && raw.Security[i2] != v))
-//@   loop 1 invariant [C14] forall i2 int, k string :: triggers(has(raw.Security[i2], k)) && (0 <= i2 && i2 < $i0 ==> has(raw.Security[i2], k) == has(o.Security[i2], k) && (has(o.Security[i2], k) ==> len(raw.Security[i2][k].List) == len(o.Security[i2][k])))
-//@   loop 1 invariant [C14] v != nil && freshObj(v) && (forall k string :: triggers(has(v, k)) && (has(v, k) == $seen1[k] && ($seen1[k] ==> len(v[k].List) == len(req[k]))))
 
 //@ func (*SwaggerProps).GobDecode
 //@   property C14
